@@ -25,11 +25,22 @@ MANIFEST_TEXT = ("Lean 4 theorems for all process counts, lengths, displacements
                  "each of its collectives (on the communicated cells for partially communicated types), is rank 0 of 1 and "
                  "refuses point-to-point calls; MPIPack round-trips every sequence of static / size-prefixed / nested "
                  "items and its growth rule leaves room for what MPI_Pack writes; receive with size discovery returns "
-                 "the sent elements with the sent length in every ring.  Each run executes the real "
+                 "the sent elements with the sent length in every ring; R4: the straight-line construction block of every "
+                 "MPITraits<...>::getType() (FieldVector, bigunsignedint, std::pair, ParallelLocalIndex, IndexPair, byte fallback) "
+                 "is executed symbolically on every run and, for every instantiation (member typemaps, offsets, sizeof, counts), "
+                 "denotes the model's typemap constructor, hence the datatype the current code builds for ParallelLocalIndex "
+                 "transfers the attribute only, the one for IndexPair exactly global index and attribute, arrays of pairs stride "
+                 "by sizeof(pair), FieldVector/bigunsignedint all components/digits; every member function body of "
+                 "Communication<MPI_Comm> is executed symbolically into the MPI call it issues (function, buffers, counts, "
+                 "datatypes, root, op, delegations, the probe-count-resize-receive sequence of rrecv) and equals the "
+                 "specification table; every call fits the MPI signature, describes every buffer by the datatype of its own "
+                 "elements and reduces with the MPI_Op of the element type its datatype describes; the counts of "
+                 "igather/iscatter/iallgather are the per-rank sizes for all sizes and process counts.  Each run executes the real "
                  "Communication<MPI_Comm>, Communication<No_Comm>, MPIPack, send/recv/rrecv (with and without status) and "
                  "MPITraits datatypes on 1-4 (thorough 1-7) ranks for 27 element types (all intrinsic types of "
                  "mpitraits.hh, byte-fallback types, padded and nested pairs, FieldVector<int,3/2> and of pairs, "
-                 "bigunsignedint<96/40>, IndexPair, ParallelLocalIndex), single calls and call histories executed in one "
+                 "bigunsignedint<96/40>, IndexPair, ParallelLocalIndex), MPIData container views of std::vector, std::array<T,3>, "
+                 "DynamicVector<T> and FieldVector objects in the reductions, single calls and call histories executed in one "
                  "process (one generic functor such as std::plus<> over several element types, several functors on one "
                  "type, the members of one template family, arbitrary mixes), and compares them with the model and with "
                  "an oracle computed from the op line.")
@@ -38,7 +49,9 @@ MANIFEST_NOTE = ("Partial: MPI itself is trusted (a transfer moves the typemap's
                  "inverts MPI_Pack; reliable pairwise-FIFO delivery) - these appear as definitions (transfer, Spec.*, Codec, "
                  "Tree).  The theorems are about the wrapper logic and the message-level specification; model fidelity "
                  "rests on the translator (type/op tables, user-op registration, owner of the static storage of every lazily "
-                 "created handle, every body of the sequential stand-in) and "
+                 "created handle, every body of the sequential stand-in, R4: the construction code of the six struct/contiguous "
+                 "datatypes and the MPI call of each of the 31 wrapper overloads of Communication<MPI_Comm>; the cell-level "
+                 "offsets/sizes at which the driver instantiates the datatypes, MPIData/MPIFuture and MPIPack remain hand-modelled) and "
                  "on the differential runs (P<=7, lengths <=5, reductions with user functors beyond 10 kB per contribution so that "
                  "MPI's long-message algorithms run).  The sequential stand-in copies whole objects where MPI copies "
                  "only the communicated members (IndexPair, ParallelLocalIndex): agreement is claimed and checked on the "
@@ -52,7 +65,8 @@ MANIFEST_NOTE = ("Partial: MPI itself is trusted (a transfer moves the typemap's
                  "MPI_MIN/MPI_MAX on MPI_UNSIGNED_LONG with a signed comparison (reproduced with a bare MPI_Allreduce), so "
                  "unsigned long operands of min/max stay below 2^63.")
 TECHNIQUE = ("Lean 4 proof over cell-level model of typemaps, collectives, MPIPack and the lazily created handle singletons + "
-             "translator for the type/op tables, the user-op registration, the singleton storage and the sequential stand-in + "
+             "translator for the type/op tables, the user-op registration, the singleton storage, the sequential stand-in, the datatype "
+             "construction code and the MPI call of every wrapper (symbolic execution of straight-line bodies) + "
              "MPI differential correspondence (single calls and call histories) with a fold oracle")
 TRANSLATORS = [tr_c07.translate]
 HARNESS = dict(
@@ -67,7 +81,7 @@ RULE = ("cases: call history (2-6 op lines of the kinds below executed in one pr
         "std::multiplies<>, std::bit_xor<>, templated min/max/left/right - over 2-4 element types; 2-4 typed functors on one "
         "element type; typemap decodes and transfers within one template family FieldVector<K,n> / bigunsignedint<k> / "
         "pair<T1,T2> / byte fallback / index types; any mix; all 27 typemaps in a row) or collective (sum/prod/min/max/user functors incl. associative non-commutative ones in 7 call forms "
-        "+ container views vector<T> / FieldVector object with functors on the entries, "
+        "+ container views vector<T> / FieldVector object with functors on the entries, std::array<T,3> / DynamicVector<T> with predefined ops, "
         "broadcast, gather(v), scatter(v), allgather(v), barrier; blocking, future-based and scalar forms) on world / "
         "MPI_COMM_SELF / sequential stand-in x element type {int,long,double,complex<double>,FieldVector<int,3>,"
         "bigunsignedint<96>,pair<int,char>,pair<long long,char>,IndexPair,ParallelLocalIndex; reduced call set: unsigned "
@@ -86,7 +100,7 @@ ASSUMPTIONS = [
     "contributions in some order/bracketing, with non-commutative ops in rank order with some bracketing, MPI_Unpack "
     "inverts MPI_Pack, delivery is reliable and pairwise FIFO",
     "the Lean model lean/DuneVerif/Model/C07.lean is hand-written at cell level (one cell per scalar member); the type and "
-    "op tables, the user-op registration, the storage of the lazily created handles and the bodies of the sequential stand-in are re-translated from the sources on "
+    "op tables, the user-op registration, the storage of the lazily created handles, the bodies of the sequential stand-in, the construction code of the datatypes and the MPI call of every wrapper of Communication<MPI_Comm> are re-translated from the sources on "
     "every run (lean/DuneVerif/Gen/C07.lean); the rest of its fidelity to mpicommunication.hh / mpipack.hh / mpidata.hh / "
     "mpitraits.hh rests on this differential run",
     "reductions are exercised without signed overflow (sums bounded by MAX/8 per rank etc.); floating-point types hold "
@@ -102,7 +116,10 @@ ASSUMPTIONS = [
 ]
 TRUSTED = ["mpicxx/libstdc++ (-O1 -flto), ASan/UBSan, Open MPI 4.1", "harness/mpi_c07.cc (cell conversion, oracle) + Driver/C07.lean parsing/printing",
            "harness/pmpi_sched.cc", "tools/translators/tr_c07.py (statement grammar for the stand-in's bodies; recognition of the three storage shapes "
-           "static data member / function-local static / reference to a variable (template))"]
+           "static data member / function-local static / reference to a variable (template); R4: the statement grammars of the two symbolic "
+           "executors - declarations, MPI_Get_address pairs / offsetof, MPI_Type_contiguous/create_struct/create_resized/commit/free; "
+           "MPIData/MPIFuture views, local ints as products/quotients, one MPI call or one delegation per wrapper - and the canonical "
+           "alphabetical order given to struct members)"]
 CORPUS_TIMEOUT = 600
 
 
